@@ -98,6 +98,20 @@ def run(s):
         s.canary("C02.canary.both_factors_e_i", lambda: can(lambda: spec_gap(env, swap_e=True)))
         s.canary("C02.canary.dPdT_not_squared", lambda: can(lambda: spec_gap(env, power=1)))
 
+    # ---------------- the e_i, e_j of the formula are the strain FRACTIONS: what the task layer hands to the contributions
+    def fractions():
+        from props import C04
+        tasks = importlib.import_module("cij.core.tasks")
+        r = None
+        for k in tasks_env.all_keys():
+            if not k.is_shear:
+                r = C04.l2_obligation(tasks, k, tier)
+                if r.status != core.PROVED:
+                    r.detail = "strain fractions handed to the contribution of %r: %s" % (k, r.detail)
+                    return r
+        return r
+    s.oblige("C02.strain_fractions_are_normalised(6 non-shear keys)", fractions, ["tasks.PhononContributionTaskParams._make_param_by_strain_key"])
+
     # ---------------- shear: adiabatic is the isothermal object, and is fed by isothermal dependencies only
     s.oblige("C02.shear.value_adiabatic_is_value_isothermal", shear_identity, ["shear.ShearElasticModulusPhononContribution.value_adiabatic"])
     s.oblige("C02.tasks.shear_adiabatic_equals_isothermal(15 keys)", lambda: shear_tasks(tier),
@@ -105,7 +119,7 @@ def run(s):
               "tasks.PhononContributionTask.get_modulus_isothermal"], kind="finite")
     s.canary("C02.canary.shear_differs_if_fed_adiabatic", lambda: shear_tasks(tier, perturbed=True))
     s.oblige("C02.heat_capacity_forwarding", heat_capacity, ["qha_adapter.QHAVolumeBaseInterface.heat_capacity"], kind="finite")
-    s.min_obligations = 10
+    s.min_obligations = 11
 
 
 def shear_identity():
